@@ -23,6 +23,8 @@ class ModelEngine(Engine):
             self.parse('')
         except (AttributeError, TypeError):
             self.with_pos = False
+        except Exception:  # noqa: BLE001
+            pass           # (a tree on which even '' blows up: the obligation bodies report it)
 
 
 def rules_signature(m):
